@@ -32,7 +32,7 @@ var Profiles = map[string]Profile{
 	"ids":       {"join": 4, "close": 2, "entity_add": 5, "entity_del": 3, "type_add": 4, "asset_add": 4, "open": 2},
 	"pose":      {"pose": 10, "entity_add": 3, "entity_del": 2, "join": 1.5, "close": 1},
 	"component": {"type_add": 3, "comp_add": 5, "comp_upd": 5, "comp_del": 4, "comp_list": 3, "entity_add": 3, "entity_del": 2, "get_name": 1.5, "get_id": 1.5, "sub": 2, "close": 1.5},
-	"subscribe": {"type_add": 2, "sub": 5, "unsub": 4, "comp_add": 5, "comp_upd": 5, "comp_del": 4, "entity_add": 3, "join": 2, "close": 2},
+	"subscribe": {"type_add": 2, "sub": 5, "unsub": 3, "comp_add": 5, "comp_upd": 5, "comp_del": 4, "entity_add": 3, "join": 3, "close": 0.7, "open": 3},
 	"custom":    {"custom": 12, "join": 2, "close": 1},
 	"module":    {"action": 8, "asset_add": 8, "entity_add": 4, "entity_del": 3, "join": 2, "close": 2},
 }
@@ -279,6 +279,19 @@ func (g *Gen) Next() Action {
 		r.Entity = g.pickEntity(c, 0.75)
 		names := []string{"a", "b", "a", "b", ""}
 		r.Name = names[g.R.Intn(len(names))]
+		if s != nil && len(s.Actions) > 0 && g.R.Intn(2) == 0 {
+			// aim at an (entity, name) that already carries an action, so that the
+			// equal / older / newer timestamp cases occur
+			var keys []model.ActKey
+			for k := range s.Actions {
+				keys = append(keys, k)
+			}
+			sort.Slice(keys, func(i, j int) bool {
+				return keys[i].Entity < keys[j].Entity || keys[i].Entity == keys[j].Entity && keys[i].Name < keys[j].Name
+			})
+			k := keys[g.R.Intn(len(keys))]
+			r.Entity, r.Name = k.Entity, k.Name
+		}
 		r.Data = []byte(fmt.Sprintf("act-c%d-%d", c.ID, g.counter))
 		r.ActTS = g.actionTS(s, r.Entity, r.Name)
 		if g.R.Intn(15) == 0 {
@@ -286,6 +299,19 @@ func (g *Gen) Next() Action {
 		}
 	case "asset_add":
 		r.Entity = g.pickEntity(c, 0.6)
+		if s != nil && g.R.Intn(3) == 0 {
+			// an own entity that already carries an asset (replacement)
+			var es []uint32
+			for e, as := range s.Assets {
+				if as.Participant == c.PID {
+					es = append(es, e)
+				}
+			}
+			sort.Slice(es, func(i, j int) bool { return es[i] < es[j] })
+			if len(es) > 0 {
+				r.Entity = es[g.R.Intn(len(es))]
+			}
+		}
 		r.Name = fmt.Sprintf("asset-c%d-%d", c.ID, g.counter)
 		if g.R.Intn(10) == 0 {
 			r.Name = ""
